@@ -1280,7 +1280,7 @@ lys_compile_type_pattern_check(const struct ly_ctx *ctx, const char *pattern, pc
         switch (orig_ptr[0]) {
         case '$':
         case '^':
-            if (!brack) {
+            if (!brack && !escaped) {
                 /* make space for the extra character */
                 ++size;
                 perl_regex = ly_realloc(perl_regex, size);
